@@ -1,3 +1,781 @@
 import TT.Model.UdpCodec
+/-! Helper lemmas for C06 (UDP codec). -/
 namespace TT.Udp
+open TT TT.Bytes TT.Icmp
+
+theorem br_cases (buffer input : Bytes) (cap : Nat) (h : buffer.length < cap ∨ (cap = 0 ∧ buffer = [])) :
+    (buffer.length + input.length < cap ∧ bufferedRead buffer input cap = .need (buffer ++ input)) ∨
+    (cap ≤ buffer.length + input.length ∧ ∃ field tail, bufferedRead buffer input cap = .got field tail ∧ field.length = cap ∧
+       buffer ++ input = field ++ tail ∧ tail.length ≤ input.length ∧
+       (input ≠ [] → cap ≠ 0 → tail.length < input.length)) := by
+  by_cases hlt : buffer.length + input.length < cap
+  · left
+    refine ⟨hlt, ?_⟩
+    have h1 : buffer.length < cap := by omega
+    have h2 : min input.length (cap - buffer.length) = input.length := by omega
+    simp [bufferedRead, h1, h2, hlt]
+  · right
+    refine ⟨by omega, buffer ++ input.take (cap - buffer.length), input.drop (cap - buffer.length), ?_, ?_, ?_, ?_, ?_⟩
+    · have h2 : min input.length (cap - buffer.length) = cap - buffer.length := by omega
+      have h3 : ¬ (cap ≤ buffer.length ∧ ¬ cap = 0) := by omega
+      have h4 : ¬ (buffer.length + min (cap - buffer.length) input.length < cap) := by omega
+      simp [bufferedRead, h2]
+      rw [if_neg h3, if_neg h4]
+    · rcases h with h | ⟨h, hb⟩
+      · simp; omega
+      · simp [h, hb]
+    · simp
+    · simp
+    · intro hi hc
+      have : input.length ≠ 0 := by simpa using hi
+      simp; omega
+
+theorem getU32_len4 (f : Bytes) (h : f.length = 4) :
+    ∃ t, getU32 f = .ok (t, []) ∧ ∀ x, getU32 (f ++ x) = .ok (t, x) := by
+  match f, h with
+  | [a, b, c, d], _ => exact ⟨_, rfl, fun _ => rfl⟩
+
+
+theorem parseSock_ok (h : Bytes) (hl : 18 ≤ h.length) :
+    ∃ v r, parseSock h = .ok (v, r) ∧ r.length + 18 = h.length ∧ r = h.drop 18 ∧
+      ∀ x, parseSock (h ++ x) = .ok (v, r ++ x) := by
+  have e : h = h.take 16 ++ h.drop 16 := by simp
+  have hp : (h.take 16).length = 16 := by simp; omega
+  have hq : (h.drop 16).length + 16 = h.length := by simp; omega
+  generalize h.take 16 = p at e hp
+  generalize h.drop 16 = q at e hq
+  subst e
+  match q, hq with
+  | a :: b :: r, hq =>
+    refine ⟨⟨fixedIpOf p, a * 256 + b⟩, r, ?_, ?_, ?_, ?_⟩
+    · simp [parseSock, getFixedIp, splitTo, hp, getU16]
+    · simp at hl hq ⊢; omega
+    · have : p.drop 18 = [] := by simp; omega
+      simp [List.drop_append, this, hp]
+    · intro x
+      simp [parseSock, getFixedIp, splitTo, hp, getU16]
+  | [_], hq => simp at hl hq; omega
+  | [], hq => simp at hl hq; omega
+
+
+theorem getU32_rest_length {s : Bytes} {len : Nat} {rest : Bytes} (h : getU32 s = .ok (len, rest)) :
+    rest.length + 4 = s.length := by
+  match s, h with
+  | a :: b :: c :: d :: r, h =>
+    simp [getU32] at h
+    rw [← h.2]; simp
+
+theorem specDecode_fuel_irrel : ∀ (F G : Nat) (s : Bytes), s.length < F → s.length < G →
+    specDecode F s = specDecode G s := by
+  intro F
+  induction F with
+  | zero => intro G s h; omega
+  | succ F ih =>
+    intro G s hF hG
+    match G, hG with
+    | G+1, hG =>
+      unfold specDecode
+      split
+      · rfl
+      · next len rest hget =>
+        have := getU32_rest_length hget
+        split
+        · rfl
+        · have hl : (rest.drop len).length < F := by simp; omega
+          have hl' : (rest.drop len).length < G := by simp; omega
+          rw [ih G _ hl hl']
+
+/-- fuel-free reference decoder -/
+def spec (s : Bytes) : List Datagram := specDecode (s.length + 1) s
+
+theorem specDecode_eq_spec (F : Nat) (s : Bytes) (h : s.length < F) : specDecode F s = spec s :=
+  specDecode_fuel_irrel _ _ _ h (by omega)
+
+theorem spec_unfold (s : Bytes) : spec s =
+    match getU32 s with
+    | .panic => []
+    | .ok (len, rest) =>
+      if rest.length < len then [] else
+      (specRecord len (rest.take len)).toList ++ spec (rest.drop len) := by
+  rw [spec, specDecode]
+  cases hget : getU32 s with
+  | panic => rfl
+  | ok p =>
+    obtain ⟨len, rest⟩ := p
+    have := getU32_rest_length hget
+    simp only []
+    split
+    · rfl
+    · rw [specDecode_eq_spec _ _ (by simp; omega)]
+      split <;> simp [*]
+
+
+theorem header_parse (header : Bytes) (h : header.length = hdrNoLen) :
+    ∃ src dst l r1, parseSock header = .ok (src, r1) ∧ parseSock r1 = .ok (dst, [l]) ∧ l ∈ header ∧
+      ∀ Y, parseSock (header ++ Y) = .ok (src, r1 ++ Y) ∧ parseSock (r1 ++ Y) = .ok (dst, l :: Y) := by
+  simp only [hdrNoLen] at h
+  obtain ⟨src, r1, h1, hl1, hd1, h1'⟩ := parseSock_ok header (by omega)
+  obtain ⟨dst, r2, h2, hl2, hd2, h2'⟩ := parseSock_ok r1 (by omega)
+  match r2, hl2, hd2, h2, h2' with
+  | [l], _, hd2, h2, h2' =>
+    refine ⟨src, dst, l, r1, h1, h2, ?_, fun Y => ⟨h1' Y, by simpa using h2' Y⟩⟩
+    rw [hd1, List.drop_drop] at hd2
+    exact List.mem_of_mem_drop (hd2 ▸ List.mem_singleton_self l)
+  | [], hl2, _, _, _ => simp at hl2; omega
+  | _ :: _ :: _, hl2, _, _, _ => simp at hl2; omega
+
+theorem specRecord_header {header r1 : Bytes} {src dst : Ip.Sock} {l : Nat} (total : Nat) (Y : Bytes)
+    (ht : hdrNoLen ≤ total)
+    (h1 : parseSock (header ++ Y) = .ok (src, r1 ++ Y)) (h2 : parseSock (r1 ++ Y) = .ok (dst, l :: Y)) :
+    specRecord total (header ++ Y) =
+      if total > maxIn - l then none else if total < hdrNoLen + l then none else
+      if validUtf8 (Y.take l) then some ⟨src, dst, Y.take l, (Y.drop l).take (total - hdrNoLen - l)⟩ else none := by
+  simp only [specRecord, h1, h2]
+  rw [if_neg (by omega)]
+
+
+/-- zero-consumption steps still ahead in a state -/
+def w : RecvState → Nat
+  | .appName 0 => 2
+  | .payload 0 => 1
+  | .dropping 0 => 1
+  | _ => 0
+
+@[simp] theorem w_length : w .length = 0 := rfl
+@[simp] theorem w_fixedHeader : w .fixedHeader = 0 := rfl
+theorem w_le (st : RecvState) : w st ≤ 2 := by
+  unfold w; split <;> omega
+theorem w_dropping_le (k : Nat) : w (.dropping k) ≤ 1 := by
+  unfold w; split <;> simp_all
+theorem w_payload_le (k : Nat) : w (.payload k) ≤ 1 := by
+  unfold w; split <;> simp_all
+
+/-- invariant used by the simulation -/
+def SInv (d : Dec) : Prop :=
+  match d.st with
+  | .length => d.buffer.length < 4
+  | .fixedHeader => d.buffer.length < hdrNoLen ∧ hdrNoLen ≤ d.total
+  | .appName l => (d.buffer.length < l ∨ (l = 0 ∧ d.buffer = [])) ∧ hdrNoLen + l ≤ d.total ∧ d.src.isSome ∧ d.dst.isSome
+  | .payload n => (d.buffer.length < n ∨ d.buffer = []) ∧ d.src.isSome ∧ d.dst.isSome
+  | .dropping _ => d.buffer = []
+
+/-- what the reference decoder yields for the rest of the stream, resumed from a decoder state -/
+def specFrom (d : Dec) (s : Bytes) : List Datagram :=
+  match d.st with
+  | .length => spec (d.buffer ++ s)
+  | .fixedHeader =>
+    if (d.buffer ++ s).length < d.total then [] else
+      (specRecord d.total ((d.buffer ++ s).take d.total)).toList ++ spec ((d.buffer ++ s).drop d.total)
+  | .appName l =>
+    if (d.buffer ++ s).length < d.total - hdrNoLen then [] else
+      (match d.src, d.dst with
+       | some a, some b =>
+         if validUtf8 ((d.buffer ++ s).take l) then
+           [⟨a, b, (d.buffer ++ s).take l, ((d.buffer ++ s).drop l).take (d.total - hdrNoLen - l)⟩] else []
+       | _, _ => []) ++ spec ((d.buffer ++ s).drop (d.total - hdrNoLen))
+  | .payload n =>
+    if (d.buffer ++ s).length < n then [] else
+      (match d.src, d.dst with
+       | some a, some b => [⟨a, b, d.app.getD [], (d.buffer ++ s).take n⟩]
+       | _, _ => []) ++ spec ((d.buffer ++ s).drop n)
+  | .dropping k => if s.length < k then [] else spec (s.drop k)
+
+def StepOK (d : Dec) (data : Bytes) : Prop :=
+  ∃ d' out tail, decodeOnce d data = .next d' out tail ∧ SInv d' ∧
+    3 * tail.length + w d'.st < 3 * data.length + w d.st ∧
+    (out.isSome → d'.st = .length) ∧
+    ∀ s, specFrom d (data ++ s) = out.toList ++ specFrom d' (tail ++ s)
+
+theorem step_length (d : Dec) (data : Bytes) (hst : d.st = .length) (hI : SInv d) (hne : data ≠ []) :
+    StepOK d data := by
+  obtain ⟨st, total, buffer, src, dst, app⟩ := d
+  simp only at hst; subst hst
+  simp only [SInv] at hI
+  have hdl : data.length ≠ 0 := by simpa using hne
+  rcases br_cases buffer data 4 (Or.inl hI) with ⟨hlt, hbr⟩ | ⟨hge, field, tail, hbr, hfl, happ, htl, htl'⟩
+  · refine ⟨_, none, [], by simp only [decodeOnce, hbr]; rfl, ?_, ?_, ?_, ?_⟩
+    · simpa [SInv] using hlt
+    · simp [w]; omega
+    · simp
+    · intro s; simp [specFrom]
+  · obtain ⟨t, ht, ht'⟩ := getU32_len4 field hfl
+    have htl'' := htl' hne (by omega)
+    by_cases hT : t ≥ hdrNoLen
+    · refine ⟨_, none, tail, by simp only [decodeOnce, hbr, ht, if_pos hT]; rfl, ?_, ?_, ?_, ?_⟩
+      · simp [SInv, hdrNoLen] at hT ⊢; omega
+      · simp [w]; omega
+      · simp
+      · intro s
+        simp only [specFrom, List.nil_append]
+        rw [← List.append_assoc, happ, List.append_assoc, spec_unfold, ht']
+        simp
+    · refine ⟨_, none, tail, by simp only [decodeOnce, hbr, ht, if_neg hT]; rfl, ?_, ?_, ?_, ?_⟩
+      · simp [SInv]
+      · have := w_dropping_le t; simp only [w_length]; omega
+      · simp
+      · intro s
+        simp only [specFrom]
+        rw [← List.append_assoc, happ, List.append_assoc, spec_unfold, ht']
+        have : specRecord t (List.take t (tail ++ s)) = none := by
+          simp only [specRecord]; rw [if_pos (by omega)]
+        simp [this]
+
+
+theorem ite_iff_congr {α : Type} {p q : Prop} [Decidable p] [Decidable q] (h : p ↔ q) (a b : α) :
+    (if p then a else b) = if q then a else b := by
+  by_cases hp : p
+  · rw [if_pos hp, if_pos (h.1 hp)]
+  · rw [if_neg hp, if_neg (fun hq => hp (h.2 hq))]
+
+theorem w_appName_pos {l : Nat} (h : l ≠ 0) : w (.appName l) = 0 := by
+  unfold w; split <;> simp_all
+theorem w_payload_pos {l : Nat} (h : l ≠ 0) : w (.payload l) = 0 := by
+  unfold w; split <;> simp_all
+theorem w_dropping_pos {l : Nat} (h : l ≠ 0) : w (.dropping l) = 0 := by
+  unfold w; split <;> simp_all
+@[simp] theorem w_appName_zero : w (.appName 0) = 2 := rfl
+@[simp] theorem w_payload_zero : w (.payload 0) = 1 := rfl
+@[simp] theorem w_dropping_zero : w (.dropping 0) = 1 := rfl
+
+theorem pendingEmpty_appName (l : Nat) : pendingEmpty (.appName l) = true ↔ l = 0 := by
+  cases l <;> simp [pendingEmpty]
+theorem pendingEmpty_payload (l : Nat) : pendingEmpty (.payload l) = true ↔ l = 0 := by
+  cases l <;> simp [pendingEmpty]
+
+theorem step_fixedHeader (d : Dec) (data : Bytes) (hst : d.st = .fixedHeader) (hI : SInv d) (hne : data ≠ []) :
+    StepOK d data := by
+  obtain ⟨st, total, buffer, src, dst, app⟩ := d
+  simp only at hst; subst hst
+  simp only [SInv] at hI
+  obtain ⟨hI, hT⟩ := hI
+  have hdl : data.length ≠ 0 := by simpa using hne
+  have h37 : hdrNoLen = 37 := rfl
+  rcases br_cases buffer data hdrNoLen (Or.inl hI) with ⟨hlt, hbr⟩ | ⟨hge, header, tail, hbr, hfl, happ, htl, htl'⟩
+  · refine ⟨_, none, [], by simp only [decodeOnce, hbr]; rfl, ?_, ?_, ?_, ?_⟩
+    · simpa [SInv, hT] using hlt
+    · simp [w]; omega
+    · simp
+    · intro s; simp [specFrom]
+  · obtain ⟨src', dst', l, r1, h1, h2, _, hY⟩ := header_parse header hfl
+    have htl'' := htl' hne (by simp [hdrNoLen])
+    have hsim : ∀ s : Bytes, (buffer ++ (data ++ s)) = header ++ (tail ++ s) := by
+      intro s; rw [← List.append_assoc, happ, List.append_assoc]
+    have hlen : ∀ s : Bytes, (header ++ (tail ++ s)).length = hdrNoLen + (tail ++ s).length := by
+      intro s; rw [List.length_append, hfl]
+    have htake : ∀ X : Bytes, (header ++ X).take total = header ++ X.take (total - hdrNoLen) := by
+      intro X; rw [List.take_append, hfl, List.take_of_length_le (by omega)]
+    have hdrop : ∀ X : Bytes, (header ++ X).drop total = X.drop (total - hdrNoLen) := by
+      intro X; rw [List.drop_append, hfl, List.drop_of_length_le (by omega)]; rfl
+    have hrec := fun Y => specRecord_header total Y hT (hY Y).1 (hY Y).2
+    by_cases hA : total > maxIn - l
+    · refine ⟨_, none, tail, by simp only [decodeOnce, hbr, h1, h2, getU8, if_pos hA]; rfl, ?_, ?_, ?_, ?_⟩
+      · simp [SInv]
+      · have := w_dropping_le (total - hdrNoLen); simp only [w_fixedHeader]; omega
+      · simp
+      · intro s
+        simp only [specFrom, hsim, hlen, htake, hdrop, hrec, if_pos hA]
+        simp [-List.length_append]
+        exact ite_iff_congr (by omega) _ _
+    · by_cases hB : total ≥ hdrNoLen + l
+      · refine ⟨_, none, tail, by simp only [decodeOnce, hbr, h1, h2, getU8, if_neg hA, if_pos hB]; rfl, ?_, ?_, ?_, ?_⟩
+        · simp [SInv]; omega
+        · have := w_le (.appName l); simp only [w_fixedHeader]; omega
+        · simp
+        · intro s
+          simp only [specFrom, hsim, hlen, htake, hdrop, hrec, if_neg hA]
+          rw [if_neg (show ¬ total < hdrNoLen + l by omega)]
+          simp only [List.nil_append, Option.toList_none]
+          generalize tail ++ s = X
+          rw [ite_iff_congr (show (hdrNoLen + X.length < total ↔ X.length < total - hdrNoLen) by omega)]
+          rw [List.take_take, List.drop_take, List.take_take,
+            show min l (total - hdrNoLen) = l by omega,
+            show min (total - hdrNoLen - l) (total - hdrNoLen - l) = total - hdrNoLen - l by omega]
+          split
+          · rfl
+          · split <;> rfl
+      · refine ⟨_, none, tail, by simp only [decodeOnce, hbr, h1, h2, getU8, if_neg hA, if_neg hB]; rfl, ?_, ?_, ?_, ?_⟩
+        · simp [SInv]
+        · have := w_dropping_le (total - hdrNoLen); simp only [w_fixedHeader]; omega
+        · simp
+        · intro s
+          simp only [specFrom, hsim, hlen, htake, hdrop, hrec, if_neg hA]
+          rw [if_pos (show total < hdrNoLen + l by omega)]
+          simp [-List.length_append]
+          exact ite_iff_congr (by omega) _ _
+
+theorem step_appName (d : Dec) (data : Bytes) (l : Nat) (hst : d.st = .appName l) (hI : SInv d)
+    (hgo : data ≠ [] ∨ pendingEmpty d.st = true) :
+    StepOK d data := by
+  obtain ⟨st, total, buffer, src, dst, app⟩ := d
+  simp only at hst; subst hst
+  simp only [SInv] at hI
+  obtain ⟨hI, hT, hs, hd⟩ := hI
+  obtain ⟨a, rfl⟩ := Option.isSome_iff_exists.1 hs
+  obtain ⟨b, rfl⟩ := Option.isSome_iff_exists.1 hd
+  simp only [pendingEmpty_appName] at hgo
+  have hdl : data ≠ [] → data.length ≠ 0 := by simp
+  have h37 : hdrNoLen = 37 := rfl
+  rcases br_cases buffer data l hI with ⟨hlt, hbr⟩ | ⟨hge, name, tail, hbr, hfl, happ, htl, htl'⟩
+  · have hl0 : l ≠ 0 := by omega
+    have hne : data ≠ [] := by rcases hgo with h | h; exact h; omega
+    have := hdl hne
+    refine ⟨_, none, [], by simp only [decodeOnce, hbr]; rfl, ?_, ?_, ?_, ?_⟩
+    · simp [SInv]; omega
+    · simp [w_appName_pos hl0]; omega
+    · simp
+    · intro s; simp [specFrom]
+  · have hsim : ∀ s : Bytes, (buffer ++ (data ++ s)) = name ++ (tail ++ s) := by
+      intro s; rw [← List.append_assoc, happ, List.append_assoc]
+    have hlen : ∀ X : Bytes, (name ++ X).length = l + X.length := by
+      intro s; rw [List.length_append, hfl]
+    have htake : ∀ X : Bytes, (name ++ X).take l = name := by
+      intro X; rw [List.take_append, hfl, List.take_of_length_le (by omega)]; simp
+    have hdrop : ∀ X : Bytes, (name ++ X).drop l = X := by
+      intro X; rw [List.drop_append, hfl, List.drop_of_length_le (by omega)]; simp
+    have hdrop2 : ∀ X : Bytes, (name ++ X).drop (total - hdrNoLen) = X.drop (total - hdrNoLen - l) := by
+      intro X; rw [List.drop_append, hfl, List.drop_of_length_le (by omega)]; simp
+    have hmeas : ∀ k, w k ≤ 1 → 3 * tail.length + w k < 3 * data.length + w (.appName l) := by
+      intro k hk
+      by_cases hl0 : l = 0
+      · subst hl0; simp; omega
+      · have hne : data ≠ [] := by rcases hgo with h | h; exact h; omega
+        have := htl' hne hl0
+        omega
+    by_cases hV : validUtf8 name = true
+    · refine ⟨_, none, tail, by simp only [decodeOnce, hbr, if_pos hV]; rfl, ?_, ?_, ?_, ?_⟩
+      · simp [SInv]
+      · exact hmeas _ (w_payload_le _)
+      · simp
+      · intro s
+        simp only [specFrom, hsim, hlen, htake, hdrop, hdrop2, if_pos hV, List.nil_append, Option.toList_none,
+          Option.getD_some]
+        exact ite_iff_congr (by omega) _ _
+    · refine ⟨_, none, tail, by simp only [decodeOnce, hbr, if_neg hV]; rfl, ?_, ?_, ?_, ?_⟩
+      · simp [SInv]
+      · exact hmeas _ (w_dropping_le _)
+      · simp
+      · intro s
+        simp only [specFrom, hsim, hlen, htake, hdrop, hdrop2, if_neg hV, List.nil_append, Option.toList_none]
+        exact ite_iff_congr (by omega) _ _
+
+theorem step_payload (d : Dec) (data : Bytes) (n : Nat) (hst : d.st = .payload n) (hI : SInv d)
+    (hgo : data ≠ [] ∨ pendingEmpty d.st = true) :
+    StepOK d data := by
+  obtain ⟨st, total, buffer, src, dst, app⟩ := d
+  simp only at hst; subst hst
+  simp only [SInv] at hI
+  obtain ⟨hI, hs, hd⟩ := hI
+  obtain ⟨a, rfl⟩ := Option.isSome_iff_exists.1 hs
+  obtain ⟨b, rfl⟩ := Option.isSome_iff_exists.1 hd
+  simp only [pendingEmpty_payload] at hgo
+  have hdl : data ≠ [] → data.length ≠ 0 := by simp
+  have hmeas : n ≠ 0 → data ≠ [] := by
+    intro h; rcases hgo with h' | h'; exact h'; omega
+  by_cases hA : buffer = [] ∧ n ≤ data.length
+  · obtain ⟨rfl, hn⟩ := hA
+    refine ⟨_, some _, data.drop n, by simp only [decodeOnce, List.isEmpty_nil, Bool.true_and, ge_iff_le, decide_eq_true hn, if_true]; rfl, ?_, ?_, ?_, ?_⟩
+    · simp [SInv]
+    · by_cases h0 : n = 0
+      · subst h0; simp
+      · simp [w_payload_pos h0]; omega
+    · simp
+    · intro s
+      simp only [specFrom, List.nil_append, List.take_append_of_le_length hn, List.drop_append_of_le_length hn]
+      rw [if_neg (by simp; omega)]
+      simp
+  · have hcond : (buffer.isEmpty && decide (data.length ≥ n)) = false := by
+      by_cases hb : buffer = []
+      · subst hb; simp at hA ⊢; omega
+      · simp [hb]
+    by_cases hB : buffer.length + data.length < n
+    · have hmin : min data.length (n - buffer.length) = data.length := by omega
+      have hn0 : n ≠ 0 := by omega
+      have := hdl (hmeas hn0)
+      refine ⟨_, none, [], by simp only [decodeOnce, hcond, hmin, List.take_length, List.drop_length, List.length_append, if_pos hB]; rfl, ?_, ?_, ?_, ?_⟩
+      · simp [SInv]; omega
+      · simp [w_payload_pos hn0]; omega
+      · simp
+      · intro s; simp [specFrom]
+    · have hbl : buffer.length < n := by
+        rcases hI with h | h
+        · exact h
+        · subst h; simp at hA hB; omega
+      have hbne : buffer ≠ [] := by
+        intro h; subst h; simp at hA hB; omega
+      have hn0 : n ≠ 0 := by omega
+      have hmin : min data.length (n - buffer.length) = n - buffer.length := by omega
+      have hlen : ¬ (buffer ++ data.take (n - buffer.length)).length < n := by simp; omega
+      have := hdl (hmeas hn0)
+      refine ⟨_, some _, data.drop (n - buffer.length), by simp only [decodeOnce, hcond, hmin, if_neg hlen]; rfl, ?_, ?_, ?_, ?_⟩
+      · simp [SInv]
+      · simp [w_payload_pos hn0]; omega
+      · simp
+      · intro s
+        simp only [specFrom, List.nil_append]
+        rw [if_neg (by simp; omega)]
+        have h1 : (buffer ++ (data ++ s)).take n = buffer ++ data.take (n - buffer.length) := by
+          rw [List.take_append, List.take_of_length_le (by omega), List.take_append_of_le_length (by omega)]
+        have h2 : (buffer ++ (data ++ s)).drop n = data.drop (n - buffer.length) ++ s := by
+          rw [List.drop_append, List.drop_of_length_le (by omega), List.drop_append_of_le_length (by omega)]; simp
+        rw [h1, h2]; simp
+
+theorem step_dropping (d : Dec) (data : Bytes) (r : Nat) (hst : d.st = .dropping r) (hI : SInv d)
+    (hne : data ≠ []) :
+    StepOK d data := by
+  obtain ⟨st, total, buffer, src, dst, app⟩ := d
+  simp only at hst; subst hst
+  simp only [SInv] at hI
+  subst hI
+  have hdl : data.length ≠ 0 := by simpa using hne
+  by_cases hr : r ≤ data.length
+  · have hmin : min r data.length = r := by omega
+    refine ⟨_, none, data.drop r, by simp only [decodeOnce, hmin, Nat.le_refl, if_true]; rfl, ?_, ?_, ?_, ?_⟩
+    · simp [SInv]
+    · by_cases h0 : r = 0
+      · subst h0; simp
+      · simp [w_dropping_pos h0]; omega
+    · simp
+    · intro s
+      simp only [specFrom, List.nil_append, Option.toList_none, List.drop_append_of_le_length hr]
+      rw [if_neg (by simp; omega)]
+  · have hmin : min r data.length = data.length := by omega
+    have h0 : r ≠ 0 := by omega
+    refine ⟨_, none, [], by simp only [decodeOnce, hmin, if_neg hr, List.drop_length]; rfl, ?_, ?_, ?_, ?_⟩
+    · simp [SInv]
+    · have := w_dropping_le (r - data.length); simp [w_dropping_pos h0]; omega
+    · simp
+    · intro s
+      simp only [specFrom, List.nil_append, Option.toList_none]
+      rw [List.drop_append, List.drop_of_length_le (by omega), List.nil_append]
+      exact ite_iff_congr (by simp; omega) _ _
+
+
+theorem step_ok (d : Dec) (data : Bytes) (hI : SInv d) (hgo : data ≠ [] ∨ pendingEmpty d.st = true) :
+    StepOK d data := by
+  cases hst : d.st with
+  | length => exact step_length d data hst hI (by simpa [hst, pendingEmpty] using hgo)
+  | fixedHeader => exact step_fixedHeader d data hst hI (by simpa [hst, pendingEmpty] using hgo)
+  | appName l => exact step_appName d data l hst hI hgo
+  | payload n => exact step_payload d data n hst hI hgo
+  | dropping r => exact step_dropping d data r hst hI (by simpa [hst, pendingEmpty] using hgo)
+
+/-- postcondition of `decodeChunk` -/
+def ChunkPost (d : Dec) (data : Bytes) : Chunk → Prop
+  | .panic => False
+  | .wantMore d' => SInv d' ∧ pendingEmpty d'.st = false ∧ ∀ s, specFrom d (data ++ s) = specFrom d' s
+  | .complete d' dg tail => SInv d' ∧ d'.st = .length ∧ 3 * tail.length < 3 * data.length + w d.st ∧
+      ∀ s, specFrom d (data ++ s) = dg :: specFrom d' (tail ++ s)
+
+theorem chunk_ok : ∀ (fuel : Nat) (d : Dec) (data : Bytes), SInv d → 3 * data.length + w d.st + 1 ≤ fuel →
+    ChunkPost d data (decodeChunk fuel d data) := by
+  intro fuel
+  induction fuel with
+  | zero => intro d data _ h; omega
+  | succ fuel ih =>
+    intro d data hI hf
+    unfold decodeChunk
+    by_cases hstop : (data.isEmpty && !pendingEmpty d.st) = true
+    · rw [if_pos hstop]
+      simp only [Bool.and_eq_true, List.isEmpty_iff, Bool.not_eq_true'] at hstop
+      obtain ⟨rfl, hp⟩ := hstop
+      exact ⟨hI, hp, fun s => rfl⟩
+    · rw [if_neg hstop]
+      have hgo : data ≠ [] ∨ pendingEmpty d.st = true := by
+        by_cases hd : data = []
+        · right; subst hd; simpa using hstop
+        · left; exact hd
+      obtain ⟨d', out, tail, hstep, hI', hm, hout, hsim⟩ := step_ok d data hI hgo
+      rw [hstep]
+      cases out with
+      | some dg =>
+        refine ⟨hI', hout rfl, ?_, fun s => by simpa using hsim s⟩
+        have := hout rfl
+        rw [this] at hm; simpa using hm
+      | none =>
+        have := ih d' tail hI' (by omega)
+        simp only
+        generalize decodeChunk fuel d' tail = r at this
+        cases r with
+        | panic => exact this
+        | wantMore d'' =>
+          obtain ⟨h1, h2, h3⟩ := this
+          exact ⟨h1, h2, fun s => by rw [hsim s, h3 s]; rfl⟩
+        | complete d'' dg t2 =>
+          obtain ⟨h1, h2, h3, h4⟩ := this
+          exact ⟨h1, h2, by omega, fun s => by rw [hsim s, h4 s]; rfl⟩
+
+theorem specFrom_nil (d : Dec) (hI : SInv d) (hp : pendingEmpty d.st = false) : specFrom d [] = [] := by
+  obtain ⟨st, total, buffer, src, dst, app⟩ := d
+  cases st with
+  | length =>
+    simp only [SInv] at hI
+    simp only [specFrom, List.append_nil]
+    rw [spec_unfold]
+    match buffer, hI with
+    | [], _ => rfl
+    | [_], _ => rfl
+    | [_, _], _ => rfl
+    | [_, _, _], _ => rfl
+  | fixedHeader =>
+    simp only [SInv] at hI
+    simp only [specFrom, List.append_nil]
+    rw [if_pos (by omega)]
+  | appName l =>
+    simp only [SInv] at hI
+    have hl : l ≠ 0 := by
+      intro h; subst h; simp [pendingEmpty] at hp
+    simp only [specFrom, List.append_nil]
+    rw [if_pos (by omega)]
+  | payload n =>
+    simp only [SInv] at hI
+    have hl : n ≠ 0 := by
+      intro h; subst h; simp [pendingEmpty] at hp
+    simp only [specFrom, List.append_nil]
+    rw [if_pos ?_]
+    rcases hI.1 with h | h
+    · exact h
+    · subst h; simp; omega
+  | dropping r =>
+    simp only [specFrom]
+    split
+    · rfl
+    · simp; rw [spec_unfold]; rfl
+
+def nu (st : RecvState) : Nat := if w st > 0 then 1 else 0
+
+theorem stream_ok : ∀ (fuel : Nat) (d : Dec) (chunks : List Bytes) (acc : List Datagram), SInv d →
+    pendingEmpty d.st = false →
+    2 * chunks.length + 2 * chunks.flatten.length + nu d.st ≤ fuel →
+    ∃ d', decodeStream fuel d chunks acc = some (acc.reverse ++ specFrom d chunks.flatten, d') := by
+  intro fuel
+  induction fuel with
+  | zero =>
+    intro d chunks acc hI hp hf
+    have : chunks = [] := by
+      cases chunks with
+      | nil => rfl
+      | cons _ _ => simp at hf
+    subst this
+    exact ⟨d, by simp [decodeStream, specFrom_nil d hI hp]⟩
+  | succ fuel ih =>
+    intro d chunks acc hI hp hf
+    cases chunks with
+    | nil => exact ⟨d, by simp [decodeStream, specFrom_nil d hI hp]⟩
+    | cons chunk rest =>
+      have hc := chunk_ok (chunkFuel chunk) d chunk hI (by have := w_le d.st; simp only [chunkFuel]; omega)
+      simp only [decodeStream]
+      simp only [List.length_cons, List.flatten_cons, List.length_append] at hf
+      generalize decodeChunk (chunkFuel chunk) d chunk = r at hc
+      cases r with
+      | panic => exact hc.elim
+      | wantMore d' =>
+        obtain ⟨h1, h2, h3⟩ := hc
+        have hnu : nu d'.st ≤ 1 := by unfold nu; split <;> omega
+        obtain ⟨d'', hd''⟩ := ih d' rest acc h1 h2 (by omega)
+        exact ⟨d'', by simp only [hd'', List.flatten_cons, h3]⟩
+      | complete d' dg tail =>
+        obtain ⟨h1, h2, h3, h4⟩ := hc
+        have hnu : nu d'.st = 0 := by rw [h2]; rfl
+        have hp' : pendingEmpty d'.st = false := by rw [h2]; rfl
+        have hnud : 3 * tail.length < 3 * chunk.length + w d.st → tail.length < chunk.length ∨ (tail.length = chunk.length ∧ nu d.st = 1) := by
+          intro h; have := w_le d.st; unfold nu; split <;> omega
+        have hflat : (if tail.isEmpty then rest else tail :: rest).flatten = tail ++ rest.flatten := by
+          split
+          · next h => simp at h; subst h; rfl
+          · rfl
+        have hlen : tail ≠ [] → (if tail.isEmpty then rest else tail :: rest).length = rest.length + 1 := by
+          intro h; simp [h]
+        have hlen0 : tail = [] → (if tail.isEmpty then rest else tail :: rest).length = rest.length := by
+          intro h; simp [h]
+        obtain ⟨d'', hd''⟩ := ih d' (if tail.isEmpty then rest else tail :: rest) (dg :: acc) h1 hp' (by
+          rw [hflat, hnu, List.length_append]
+          by_cases ht : tail = []
+          · rw [hlen0 ht]; subst ht; simp only [List.length_nil]; omega
+          · rw [hlen ht]
+            have := hnud h3
+            omega)
+        exact ⟨d'', by simp only [hd'', List.flatten_cons, h4, hflat]; simp⟩
+
+
+/-- address well-formedness: octets/hextets in range and, for IPv6, not in the range that the
+16-byte form reserves for zero-padded IPv4 -/
+def IpWF (ip : Ip.Ip) : Prop :=
+  match ip with
+  | .v4 a b c d => a < 256 ∧ b < 256 ∧ c < 256 ∧ d < 256
+  | .v6 x => x.s0 < 65536 ∧ x.s1 < 65536 ∧ x.s2 < 65536 ∧ x.s3 < 65536 ∧ x.s4 < 65536 ∧ x.s5 < 65536 ∧
+      x.s6 < 65536 ∧ x.s7 < 65536 ∧ ¬ (x.s0 = 0 ∧ x.s1 = 0 ∧ x.s2 = 0 ∧ x.s3 = 0 ∧ x.s4 = 0 ∧ x.s5 = 0)
+
+theorem putFixedIp_length (ip : Ip.Ip) : (putFixedIp ip).length = 16 := by
+  cases ip <;> simp [putFixedIp, u16be]
+
+theorem fixedIpOf_put (ip : Ip.Ip) (h : IpWF ip) : fixedIpOf (putFixedIp ip) = ip := by
+  cases ip with
+  | v4 a b c d => simp [putFixedIp, fixedIpOf]
+  | v6 x =>
+    obtain ⟨s0, s1, s2, s3, s4, s5, s6, s7⟩ := x
+    simp only [IpWF] at h
+    simp only [putFixedIp, u16be, List.cons_append, List.nil_append, fixedIpOf]
+    rw [if_neg]
+    · congr 2 <;> omega
+    · simp only [Bool.and_eq_true, beq_iff_eq]
+      omega
+
+theorem getU16_u16be (n : Nat) (h : n < 65536) (r : Bytes) : getU16 (u16be n ++ r) = .ok (n, r) := by
+  simp only [u16be, List.cons_append, List.nil_append, getU16]
+  congr 2; omega
+
+theorem getU32_u32be (n : Nat) (h : n < 4294967296) (r : Bytes) : getU32 (u32be n ++ r) = .ok (n, r) := by
+  simp only [u32be, List.cons_append, List.nil_append, getU32]
+  congr 2; omega
+
+theorem parseSock_put (s : Ip.Sock) (hp : s.port < 65536) (hip : IpWF s.ip) (r : Bytes) :
+    parseSock (putFixedIp s.ip ++ u16be s.port ++ r) = .ok (s, r) := by
+  have hl := putFixedIp_length s.ip
+  simp only [parseSock, getFixedIp, splitTo, List.append_assoc]
+  rw [if_pos (by simp; omega)]
+  simp only [List.take_append_of_le_length (Nat.le_of_eq hl.symm), List.take_of_length_le (Nat.le_of_eq hl),
+    List.drop_append_of_le_length (Nat.le_of_eq hl.symm), List.drop_of_length_le (Nat.le_of_eq hl), List.nil_append,
+    getU16_u16be _ hp, fixedIpOf_put _ hip]
+
+
+theorem parseSock_put' (s : Ip.Sock) (hp : s.port < 65536) (hip : IpWF s.ip) (r : Bytes) :
+    parseSock (putFixedIp s.ip ++ (u16be s.port ++ r)) = .ok (s, r) := by
+  rw [← List.append_assoc]; exact parseSock_put s hp hip r
+
+/-- the record body the client writes after the length field -/
+def encBody (dg : Datagram) : Bytes :=
+  putFixedIp dg.src.ip ++ (u16be dg.src.port ++ (putFixedIp dg.dst.ip ++ (u16be dg.dst.port ++
+    (dg.app.length :: (dg.app ++ dg.payload)))))
+
+theorem encodeIn_eq (dg : Datagram) :
+    encodeIn dg = u32be (hdrNoLen + dg.app.length + dg.payload.length) ++ encBody dg := by
+  simp [encodeIn, encBody]
+
+theorem encBody_length (dg : Datagram) : (encBody dg).length = hdrNoLen + dg.app.length + dg.payload.length := by
+  simp [encBody, putFixedIp_length, u16be, hdrNoLen]; omega
+
+theorem specRecord_encBody (dg : Datagram) (hsp : dg.src.port < 65536) (hsi : IpWF dg.src.ip)
+    (hdp : dg.dst.port < 65536) (hdi : IpWF dg.dst.ip) (hu : validUtf8 dg.app = true)
+    (hl : hdrNoLen + dg.app.length + dg.payload.length ≤ maxIn - dg.app.length) :
+    specRecord (hdrNoLen + dg.app.length + dg.payload.length) (encBody dg) = some dg := by
+  simp only [specRecord, encBody, parseSock_put' _ hsp hsi, parseSock_put' _ hdp hdi]
+  rw [if_neg (by omega), if_neg (by omega), if_neg (by omega)]
+  have h1 : (dg.app ++ dg.payload).take dg.app.length = dg.app := by simp
+  have h2 : (dg.app ++ dg.payload).drop dg.app.length = dg.payload := by simp
+  rw [h1, h2, if_pos hu]
+  have h3 : hdrNoLen + dg.app.length + dg.payload.length - hdrNoLen - dg.app.length = dg.payload.length := by omega
+  rw [h3, List.take_length]
+
+theorem specDecode_record (len : Nat) (hl : len < 4294967296) (body rest : Bytes) (hb : body.length = len)
+    (fuel : Nat) :
+    specDecode (fuel + 1) (u32be len ++ body ++ rest) =
+      (specRecord len body).toList ++ specDecode fuel rest := by
+  rw [specDecode, List.append_assoc, getU32_u32be len hl]
+  simp only
+  rw [if_neg (by simp; omega), List.take_append_of_le_length (by omega), List.take_of_length_le (by omega),
+    List.drop_append_of_le_length (by omega), List.drop_of_length_le (by omega)]
+  cases specRecord len body <;> simp
+
+
+theorem encodeIn_flatten_length (dgs : List Datagram) : dgs.length ≤ (dgs.map encodeIn).flatten.length := by
+  induction dgs with
+  | nil => simp
+  | cons dg dgs ih =>
+    simp only [List.map_cons, List.flatten_cons, List.length_cons, List.length_append, encodeIn_eq, u32be]
+    omega
+
+
+/-- the bounded-buffering invariant of C06 (`Dec.Inv` in `TT/Props/C06.lean` unfolds to this) -/
+def FullInv (d : Dec) : Prop :=
+  match d.st with
+  | .length => d.buffer.length < 4
+  | .fixedHeader => d.buffer.length < hdrNoLen ∧ hdrNoLen ≤ d.total
+  | .appName l => (d.buffer.length < l ∨ d.buffer = []) ∧ l ≤ 255 ∧ hdrNoLen + l ≤ d.total ∧ d.total ≤ maxIn - l ∧ d.src.isSome ∧ d.dst.isSome
+  | .payload n => (d.buffer.length < n ∨ d.buffer = []) ∧ n ≤ maxIn ∧ d.src.isSome ∧ d.dst.isSome
+  | .dropping _ => d.buffer = []
+
+theorem fullInv_step (d : Dec) (data : Bytes) (h : FullInv d) (hw : ∀ x ∈ data, x < 256)
+    (hbw : ∀ x ∈ d.buffer, x < 256) :
+    ∃ d' out tail, decodeOnce d data = .next d' out tail ∧ FullInv d' := by
+  obtain ⟨st, total, buffer, src, dst, app⟩ := d
+  have h37 : hdrNoLen = 37 := rfl
+  have hmax : maxIn = 65471 := rfl
+  cases st with
+  | length =>
+    simp only [FullInv] at h
+    rcases br_cases buffer data 4 (Or.inl h) with ⟨hlt, hbr⟩ | ⟨hge, field, tail, hbr, hfl, happ, htl, htl'⟩
+    · exact ⟨_, none, [], by simp only [decodeOnce, hbr]; rfl, by simpa [FullInv] using hlt⟩
+    · obtain ⟨t, ht, ht'⟩ := getU32_len4 field hfl
+      by_cases hT : t ≥ hdrNoLen
+      · exact ⟨_, none, tail, by simp only [decodeOnce, hbr, ht, if_pos hT]; rfl, by simp [FullInv]; omega⟩
+      · exact ⟨_, none, tail, by simp only [decodeOnce, hbr, ht, if_neg hT]; rfl, by simp [FullInv]⟩
+  | fixedHeader =>
+    simp only [FullInv] at h
+    obtain ⟨hI, hT⟩ := h
+    rcases br_cases buffer data hdrNoLen (Or.inl hI) with ⟨hlt, hbr⟩ | ⟨hge, header, tail, hbr, hfl, happ, htl, htl'⟩
+    · exact ⟨_, none, [], by simp only [decodeOnce, hbr]; rfl, by simpa [FullInv, hT] using hlt⟩
+    · obtain ⟨src', dst', l, r1, h1, h2, hmem, hY⟩ := header_parse header hfl
+      have hl : l < 256 := by
+        have : l ∈ buffer ++ data := by rw [happ]; exact List.mem_append_left _ hmem
+        rcases List.mem_append.1 this with h | h
+        · exact hbw l h
+        · exact hw l h
+      by_cases hA : total > maxIn - l
+      · exact ⟨_, none, tail, by simp only [decodeOnce, hbr, h1, h2, getU8, if_pos hA]; rfl, by simp [FullInv]⟩
+      · by_cases hB : total ≥ hdrNoLen + l
+        · exact ⟨_, none, tail, by simp only [decodeOnce, hbr, h1, h2, getU8, if_neg hA, if_pos hB]; rfl,
+            by simp [FullInv]; omega⟩
+        · exact ⟨_, none, tail, by simp only [decodeOnce, hbr, h1, h2, getU8, if_neg hA, if_neg hB]; rfl,
+            by simp [FullInv]⟩
+  | appName l =>
+    simp only [FullInv] at h
+    obtain ⟨hI, hl, hT, hM, hs, hd⟩ := h
+    have hI' : buffer.length < l ∨ (l = 0 ∧ buffer = []) := by
+      rcases hI with h | h
+      · exact Or.inl h
+      · subst h
+        by_cases h0 : l = 0
+        · exact Or.inr ⟨h0, rfl⟩
+        · left; simp; omega
+    rcases br_cases buffer data l hI' with ⟨hlt, hbr⟩ | ⟨hge, name, tail, hbr, hfl, happ, htl, htl'⟩
+    · exact ⟨_, none, [], by simp only [decodeOnce, hbr]; rfl, by
+        simp only [FullInv]; exact ⟨Or.inl (by simpa using hlt), hl, hT, hM, hs, hd⟩⟩
+    · by_cases hV : validUtf8 name = true
+      · exact ⟨_, none, tail, by simp only [decodeOnce, hbr, if_pos hV]; rfl, by
+          show ((([] : Bytes).length < total - hdrNoLen - l ∨ ([] : Bytes) = []) ∧ total - hdrNoLen - l ≤ maxIn ∧ _ ∧ _); exact ⟨Or.inr rfl, by omega, hs, hd⟩⟩
+      · exact ⟨_, none, tail, by simp only [decodeOnce, hbr, if_neg hV]; rfl, by simp [FullInv]⟩
+  | payload n =>
+    simp only [FullInv] at h
+    obtain ⟨hI, hn, hs, hd⟩ := h
+    obtain ⟨a, rfl⟩ := Option.isSome_iff_exists.1 hs
+    obtain ⟨b, rfl⟩ := Option.isSome_iff_exists.1 hd
+    by_cases hA : (buffer.isEmpty && decide (data.length ≥ n)) = true
+    · exact ⟨_, some _, data.drop n, by simp only [decodeOnce, if_pos hA]; rfl, by simp [FullInv]⟩
+    · by_cases hB : (buffer ++ data.take (min data.length (n - buffer.length))).length < n
+      · exact ⟨_, none, _, by simp only [decodeOnce, if_neg hA, if_pos hB]; rfl, by
+          simp only [FullInv]; exact ⟨Or.inl hB, hn, rfl, rfl⟩⟩
+      · exact ⟨_, some _, _, by simp only [decodeOnce, if_neg hA, if_neg hB]; rfl, by simp [FullInv]⟩
+  | dropping r =>
+    simp only [FullInv] at h
+    subst h
+    refine ⟨_, none, _, by simp only [decodeOnce]; rfl, ?_⟩
+    by_cases hr : r ≤ min r data.length
+    · simp only [if_pos hr, FullInv]; simp
+    · simp only [if_neg hr, FullInv]
+
+theorem fullInv_buffer_bounded (d : Dec) (h : FullInv d) : d.buffer.length ≤ maxIn := by
+  obtain ⟨st, total, buffer, src, dst, app⟩ := d
+  have h37 : hdrNoLen = 37 := rfl
+  have hmax : maxIn = 65471 := rfl
+  cases st <;> simp only [FullInv] at h ⊢
+  · omega
+  · omega
+  · rcases h.1 with h' | h'
+    · omega
+    · simp [h']
+  · rcases h.1 with h' | h'
+    · omega
+    · simp [h']
+  · simp [h]
+
 end TT.Udp
